@@ -26,7 +26,7 @@ ASSUMPTIONS = ["element copy/move/assignment behave as value transfer; a moved-f
                "unique_ptr: operator* / -> on a null pointer is outside the API (no assertion in the source; modelled as UB, not executed)",
                "allocator never returns null"]
 
-MUTATING = {"sweep", "fwd", "run", "assign", "massign", "cassign", "cmassign", "assignval", "emplace", "reset", "destruct", "release", "resetnew", "cat",
+MUTATING = {"sweep", "fwd", "run", "arr", "assign", "massign", "cassign", "cmassign", "assignval", "emplace", "reset", "destruct", "release", "resetnew", "cat",
             "init", "construct_with", "unwrap", "map", "map_error"}
 
 def nontrivial(cid, lines, ri):
@@ -93,7 +93,7 @@ def run(c):
     if c.replay:
         batch([cs for cs in vlib.read_replay(c.replay) if cs[1]])
     else:
-        first = gen.corpus(ok19) + gen.tuple_exhaustive() + gen.il_cases(c.rng, 20 if not thorough else 200) + gen.thr_cases(c.rng, 3 if not thorough else 30) + gen.tp_cases(c.rng, 3 if not thorough else 30) + gen.mix_cases(c.rng, 3 if not thorough else 30) + gen.err_cases(c.rng, 3 if not thorough else 30)
+        first = gen.corpus(ok19) + gen.tuple_exhaustive() + gen.il_cases(c.rng, 20 if not thorough else 200) + gen.thr_cases(c.rng, 3 if not thorough else 30) + gen.tp_cases(c.rng, 3 if not thorough else 30) + gen.mix_cases(c.rng, 3 if not thorough else 30) + gen.err_cases(c.rng, 3 if not thorough else 30) + gen.alloc_cases(c.rng, 5 if not thorough else 50)
         n = 1500 if not thorough else 15000
         types = [t for t in gen.KINDS for _ in range(1 if t in ("tup", "umem", "box") else 3)]
         for i in range(n):
